@@ -21,8 +21,10 @@ import (
 	"io"
 	"os"
 	"path/filepath"
+	"runtime"
 	"strconv"
 	"strings"
+	"syscall"
 	"time"
 
 	"github.com/thomasjungblut/go-sstables/recordio"
@@ -212,6 +214,12 @@ func crashParseOpen(args []string) ([]simpledb.ExtraOption, error) {
 				return nil, err
 			}
 			opts = append(opts, simpledb.CompactionRatio(float32(f)))
+		case "direct":
+			// direct=1: the log is written through direct-I/O writers (EnableDirectIOWAL; sessions of
+			// crashGenDirectAsyncSession, which the parent generates only where O_DIRECT is available)
+			if kv[1] != "0" {
+				opts = append(opts, simpledb.EnableDirectIOWAL())
+			}
 		default:
 			return nil, fmt.Errorf("unknown open option %q", a)
 		}
@@ -377,6 +385,19 @@ func (s *crashSessionState) crashRunOp(f []string) (string, error) {
 			return crashErrKind(e), nil
 		}
 		return "ok " + crashDigest(v), nil
+	case "pause":
+		// big-log session (crashRunBigLogSession): the process stops itself with all its threads, flusher included; the
+		// parent reads the directory - the image a kill at this instant leaves behind - and sends SIGCONT.
+		// The signal is directed at the calling thread: it is taken on the way out of this very system call, the
+		// thread does not reach user code again before SIGCONT (a process-directed SIGSTOP may be taken by another
+		// thread a little later, the program would run on meanwhile).
+		runtime.LockOSThread()
+		err := syscall.Tgkill(syscall.Getpid(), syscall.Gettid(), syscall.SIGSTOP)
+		runtime.UnlockOSThread()
+		if err != nil {
+			return "", err
+		}
+		return "ok", nil
 	case "rotate":
 		if err := needDB(); err != nil {
 			return "", err
@@ -874,4 +895,16 @@ func walProbeMain(args []string) int {
 	}
 	fmt.Println(line)
 	return 0
+}
+
+// crashWalPutRecordLen: the bytes one PutBytes(key, value) adds to the log file of the database (record header + snappy
+// compressed WalMutation), computed with the reference record length of the wal stream.  Used by the generator of the
+// direct-I/O sessions to aim the end of a log file at a position relative to the 4 MiB write buffer; a miss only moves
+// the aim (the statistics report where the files really ended).
+func crashWalPutRecordLen(key, value []byte) int {
+	b, err := proto.Marshal(&dbproto.WalMutation{Mutation: &dbproto.WalMutation_Addition{Addition: &dbproto.UpsertMutation{KeyBytes: key, ValueBytes: value}}})
+	if err != nil {
+		return len(key) + len(value) + 32
+	}
+	return refRecordLen(recordio.CompressionTypeSnappy, b)
 }
